@@ -26,7 +26,10 @@ SPEC = {
     "C06": dict(archs=["x86"], classes={"sem", "fault", "parse"}, gen=["default", "spill", "bigobj"]),
     "C07": dict(archs=["a64"], classes={"sem", "fault", "parse"}, gen=["default", "spill", "bigobj"]),
     "C08": dict(archs=["rv", "x86", "a64"], classes={"sem", "fault", "parse", "cross"}, gen=["rv"]),
-    "C09": dict(archs=["x86", "a64", "rv"], classes={"inv", "oob"}, gen=["default", "bigobj", "spill", "rv"]),
+    # C09 also counts machine faults (read of an undefined register / slot, wild jump, unaligned or out-of-area
+    # access) of a well-typed program: the execution never reaches the next statement boundary, where the
+    # invariant would have to hold ("touches no memory outside its heap, its spill area and what it pushed")
+    "C09": dict(archs=["x86", "a64", "rv"], classes={"inv", "oob", "undef", "fault", "align"}, gen=["default", "bigobj", "spill", "rv"]),
     "C10": dict(archs=["x86", "a64"], classes={"inv", "footprint"}, gen=["default"]),
     "C13": dict(archs=["x86", "a64"], classes={"cc", "align", "undef"}, gen=["default", "spill", "live"]),
     "C14": dict(archs=["x86", "a64", "rv"], classes={"wf", "parse", "asm"}, gen=["default", "spill", "bigobj", "rv"]),
@@ -158,6 +161,9 @@ def run(prop):
         bdir = os.path.join(WORK, "boundary_%s" % prop)
         subprocess.run(["python3", os.path.join(common.VERIF, "gen", "gen_boundary.py"), bdir], check=True, capture_output=True)
         funs = sorted(os.path.join(bdir, f) for f in os.listdir(bdir) if f.endswith(".sc")) + funs
+        import stagecheck as _sc
+
+        funs = _sc.shape_programs(chk, only=("dup", "rvd", "objp", "nest")) + funs
         # regression corpus (minimised past failures): always, never sampled away
         funs = pipeline.corpus_programs("regress") + [f for f in funs if "/corpus/regress/" not in f]
         for f in funs:
